@@ -638,6 +638,19 @@ func casesSearch(c *caseCtx, prop string) {
 		gameTableChecks(c)
 		consoleTableChecks(c)
 		engineResetTableChecks(c, "C11")
+		manyNewGamesChecks(c, "C11")
+		// a halted search leaves nothing in the table that a later search could take for a result: quiet-search
+		// leaves (their polls are not the main search's), cancellation at many poll indices, then the same search
+		for i := 0; i < c.scale(10, 150); i++ {
+			f := pick()
+			cfg := full
+			cfg.depths = []int{2 + c.r.Intn(2)}
+			cfg.quiet = i%4 != 3
+			cfg.tt = "size:65536"
+			for _, n := range []int{1, 2, 3, 5, 8, 13, 21, 34, 55, 89, 144, 233, 377, 610, 987} {
+				runHaltCase(c, zt, zseed, f, cfg, n)
+			}
+		}
 		uciTableSessions(c)
 	case "C12":
 		for i := 0; i < c.scale(25, 400); i++ {
@@ -797,6 +810,9 @@ func runHaltCase(c *caseCtx, zt *board.ZobristTable, zseed int64, fenStr string,
 			return "-"
 		}
 		return moveTok(pv[0])
+	}
+	if c.prop == "C11" && err2 == nil && err3 == nil && scoreTok(score2) != scoreTok(score3) {
+		fmt.Printf("IMPLVIOL halt %d %s %d %d %d %s cancel=%d :: the search after a halted one (cancelled at poll %d), on the table the halted search used, returns %s; the same search on an empty table returns %s: the table changed the result prop=C11 key=table-after-halt\n", zseed, posTok(pos), turn, np, fm, cfg.String(), n, n, scoreTok(score2), scoreTok(score3))
 	}
 	c.emit("halt %d %s %d %d %d %s cancel=%d => %s %d %s %s %d %d || %s || %s || %s %s %s || %s %s %s", zseed, posTok(pos), turn, np, fm, cfg.String(), n,
 		b01(err1 != nil), nodes, scoreTok(score), pvTok(pv), len(rec.writes), nAfter, before, after,
